@@ -155,6 +155,15 @@ def O(bits, op, *args):
             return O(bits, a[2], inner)
         if a[0] == 'o' and a[2] == 'trunc':
             return O(bits, 'trunc', a[3])
+        if a[0] == 'o' and a[2] == 'and' and a[4][0] == 'c' and (a[4][2] & m) == m:
+            return O(bits, 'trunc', a[3])
+        # truncation commutes with modular / bitwise operations: push it inward (normal form)
+        if a[0] == 'o' and a[2] in ('add', 'sub', 'mul', 'and', 'or', 'xor') and len(a) == 5:
+            return O(bits, a[2], O(bits, 'trunc', a[3]), O(bits, 'trunc', a[4]))
+        if a[0] == 'o' and a[2] == 'not':
+            return O(bits, 'not', O(bits, 'trunc', a[3]))
+        if a[0] == 'o' and a[2] == 'shl' and a[4][0] == 'c' and a[4][2] < bits:
+            return O(bits, 'shl', O(bits, 'trunc', a[3]), C(bits, a[4][2]))
     elif op == 'not':
         if a[0] == 'o' and a[2] == 'not':
             return a[3]
@@ -717,79 +726,87 @@ class Env:
 
 
 def bit_provenance(t, env, depth=0):
-    """List (LSB first) of per-bit descriptors: 0, 1, ('in', sym, bit) or None (unknown)."""
+    """List (LSB first) of per-bit descriptors: 0, 1, ('in', sym, bit) or None (unknown).
+    Structural provenance is preferred ("this bit is bit i of input symbol s", even if the path
+    condition happens to fix its value); known bits of the abstract value fill the remaining gaps."""
     bits = t[1]
-    av = env.av(t)
     out = [None] * bits
-    for i in range(bits):
-        if (av.m0 >> i) & 1:
-            out[i] = 0
-        elif (av.m1 >> i) & 1:
-            out[i] = 1
+    if t[0] == 'c':
+        return [(t[2] >> i) & 1 for i in range(bits)]
     if t[0] == 's':
-        for i in range(bits):
-            if out[i] is None:
-                out[i] = ('in', t, i)
-        return out
-    if t[0] != 'o' or depth > 40:
-        return out
-    op = t[2]
-    a = t[3:]
-
-    def fill(src):
-        for i in range(bits):
-            if out[i] is None and i < len(src):
-                out[i] = src[i]
-
-    if op in ('zext', 'trunc', 'sext'):
-        src = bit_provenance(a[0], env, depth + 1)
-        if op == 'sext':
-            src = src + [src[-1]] * (bits - len(src)) if src and src[-1] in (0, 1) else src
-        fill(src[:bits])
-    elif op in ('and', 'or', 'xor'):
-        pa = bit_provenance(a[0], env, depth + 1)
-        pb = bit_provenance(a[1], env, depth + 1)
-        for i in range(bits):
-            if out[i] is not None:
-                continue
-            x, y = pa[i], pb[i]
-            if op == 'and':
-                if x == 1:
-                    out[i] = y
-                elif y == 1:
-                    out[i] = x
-                elif x is not None and x == y:
-                    out[i] = x
-            elif op == 'or':
-                if x == 0:
-                    out[i] = y
-                elif y == 0:
-                    out[i] = x
-                elif x is not None and x == y:
-                    out[i] = x
-            else:
-                if x == 0:
-                    out[i] = y
-                elif y == 0:
-                    out[i] = x
-    elif op in ('add', 'sub') and a[1][0] == 'c':
-        c = a[1][2]
-        k = 0
-        while k < bits and not (c >> k) & 1:
-            k += 1
-        pa = bit_provenance(a[0], env, depth + 1)
-        for i in range(min(k, bits)):
-            if out[i] is None:
+        return [('in', t, i) for i in range(bits)]
+    if t[0] == 'o' and depth <= 60:
+        op = t[2]
+        a = t[3:]
+        if op in ('zext', 'trunc', 'sext'):
+            src = bit_provenance(a[0], env, depth + 1)
+            for i in range(bits):
+                if i < len(src):
+                    out[i] = src[i]
+                elif op == 'zext':
+                    out[i] = 0
+                elif op == 'sext' and src and src[-1] in (0, 1):
+                    out[i] = src[-1]
+        elif op in ('and', 'or', 'xor'):
+            pa = bit_provenance(a[0], env, depth + 1)
+            pb = bit_provenance(a[1], env, depth + 1)
+            for i in range(bits):
+                x, y = pa[i], pb[i]
+                if op == 'and':
+                    if x == 0 or y == 0:
+                        out[i] = 0
+                    elif x == 1:
+                        out[i] = y
+                    elif y == 1:
+                        out[i] = x
+                    elif x is not None and x == y:
+                        out[i] = x
+                elif op == 'or':
+                    if x == 1 or y == 1:
+                        out[i] = 1
+                    elif x == 0:
+                        out[i] = y
+                    elif y == 0:
+                        out[i] = x
+                    elif x is not None and x == y:
+                        out[i] = x
+                else:
+                    if x == 0:
+                        out[i] = y
+                    elif y == 0:
+                        out[i] = x
+                    elif x in (0, 1) and y in (0, 1):
+                        out[i] = x ^ y
+        elif op in ('add', 'sub') and a[1][0] == 'c':
+            c = a[1][2]
+            k = 0
+            while k < bits and not (c >> k) & 1:
+                k += 1
+            pa = bit_provenance(a[0], env, depth + 1)
+            for i in range(min(k, bits)):
                 out[i] = pa[i]
-    elif op in ('shl', 'shr') and a[1][0] == 'c':
-        s = a[1][2] % bits
-        pa = bit_provenance(a[0], env, depth + 1)
+        elif op in ('shl', 'shr') and a[1][0] == 'c':
+            s = a[1][2] % bits
+            pa = bit_provenance(a[0], env, depth + 1)
+            for i in range(bits):
+                j = i - s if op == 'shl' else i + s
+                if 0 <= j < bits:
+                    out[i] = pa[j]
+                else:
+                    out[i] = 0
+        elif op == 'not':
+            pa = bit_provenance(a[0], env, depth + 1)
+            for i in range(bits):
+                if pa[i] in (0, 1):
+                    out[i] = 1 - pa[i]
+    if any(o is None for o in out):
+        av = env.av(t)
         for i in range(bits):
-            if out[i] is not None:
-                continue
-            j = i - s if op == 'shl' else i + s
-            if 0 <= j < bits:
-                out[i] = pa[j]
+            if out[i] is None:
+                if (av.m0 >> i) & 1:
+                    out[i] = 0
+                elif (av.m1 >> i) & 1:
+                    out[i] = 1
     return out
 
 
